@@ -4,6 +4,7 @@ package main
 import (
 	"encoding/json"
 	"fmt"
+	"github.com/couchbase/moss"
 	"os"
 	"path/filepath"
 	"sort"
@@ -142,6 +143,56 @@ func main() {
 		resp := g1Expand(g1Req{Prop: os.Args[2], Tier: os.Args[3], Cfg: cfgI, Path: os.Args[5:]})
 		b, _ := json.MarshalIndent(resp, "", " ")
 		fmt.Println(string(b))
+	case "wlstats": // debugging: compaction kinds per round of the G3 workloads
+		for i, wl := range workloads(false) {
+			var kinds []string
+			w, infra := runWorkload(wl, nil, func(w *World, st string, ok bool) bool {
+				if st == "P" {
+					f, p := storeCounters(w)
+					n, _ := moss.VerifNumSegments(w.store)
+					kinds = append(kinds, fmt.Sprintf("full=%d partial=%d segs=%d", f, p, n))
+				}
+				return true
+			})
+			fmt.Println(i, wl.Name, kinds, infra)
+			w.Teardown()
+		}
+	case "wlsearch": // debugging: find round sequences of the G3 alphabet that end in a partial compaction
+		base := workloads(false)[2]
+		base.Cfg.CompactPct = 0.99
+		var rec func(seq []int)
+		found := 0
+		rec = func(seq []int) {
+			if len(seq) >= 3 {
+				wl := base
+				wl.Steps = nil
+				for _, b := range seq {
+					wl.Steps = append(wl.Steps, fmt.Sprintf("B%d", b), "M", "P")
+				}
+				var kinds []string
+				w, _ := runWorkload(wl, nil, func(w *World, st string, ok bool) bool {
+					if st == "P" {
+						f, p := storeCounters(w)
+						n, _ := moss.VerifNumSegments(w.store)
+						kinds = append(kinds, fmt.Sprintf("f%d/p%d/s%d", f, p, n))
+					}
+					return true
+				})
+				_, p := storeCounters(w)
+				w.Teardown()
+				if p > 0 {
+					fmt.Println(seq, kinds)
+					found++
+				}
+			}
+			if len(seq) == 5 || found > 12 {
+				return
+			}
+			for b := 0; b < len(base.Alpha); b++ {
+				rec(append(append([]int{}, seq...), b))
+			}
+		}
+		rec(nil)
 	case "c12one": // debugging: c12one <cfg> <target> <cont> <batch>...
 		var seq []int
 		for _, a := range os.Args[5:] {
